@@ -1,5 +1,8 @@
 import ChessVerif.Props.C12
 open Chess.Props.C12
-#print axioms white_mate1_best
-#print axioms black_mate1_best
-#print axioms mate1_beats_worst
+#print axioms mate1_found
+#print axioms mate1_truthful
+#print axioms isMateMove_spec
+#print axioms Chess.Props.C12.white_mate1_best
+#print axioms Chess.Props.C12.black_mate1_best
+#print axioms Chess.Props.C12.mate1_beats_worst
